@@ -177,6 +177,8 @@ struct GuestSpec {
     dup: Option<(usize, Sig)>,
     /// an import that carries API function k's name but is a global
     nonfunc: Option<usize>,
+    /// an import from the API namespace with this (unknown) name that is a global / table / memory
+    extra_nonfunc: Option<(String, usize)>,
 }
 
 fn build_guest(api: &[ApiFn], g: &GuestSpec) -> String {
@@ -202,6 +204,10 @@ fn build_guest(api: &[ApiFn], g: &GuestSpec) -> String {
     }
     if g.foreign_memory {
         w.push_str("  (import \"env\" \"scratch\" (memory 1))\n");
+    }
+    if let Some((n, kind)) = &g.extra_nonfunc {
+        let what = ["(global $xg i32)", "(table $xt 1 funcref)", "(memory $xm 1)"][*kind % 3];
+        writeln!(w, "  (import \"{}\" \"{}\" {})", g.module_name, n, what).unwrap();
     }
     if let Some((m, n)) = &g.extra_import {
         writeln!(w, "  (import \"{}\" \"{}\" (func $extra))", m, n).unwrap();
@@ -421,11 +427,11 @@ fn family(api: &[ApiFn]) -> Vec<(String, GuestSpec)> {
     vec![
         (
             "full surface, API order".into(),
-            GuestSpec { apis: all, foreign_first: false, foreign_between: false, own_stuff: false, memories: 1, module_name: API_MODULE.into(), own_state: false, foreign_memory: false, bad_sig: None, extra_import: None, dup: None, nonfunc: None },
+            GuestSpec { apis: all, foreign_first: false, foreign_between: false, own_stuff: false, memories: 1, module_name: API_MODULE.into(), own_state: false, foreign_memory: false, bad_sig: None, extra_import: None, dup: None, nonfunc: None, extra_nonfunc: None },
         ),
         (
             "permuted order, foreign imports, own code".into(),
-            GuestSpec { apis: perm, foreign_first: true, foreign_between: true, own_stuff: true, memories: 1, module_name: API_MODULE.into(), own_state: false, foreign_memory: false, bad_sig: None, extra_import: None, dup: None, nonfunc: None },
+            GuestSpec { apis: perm, foreign_first: true, foreign_between: true, own_stuff: true, memories: 1, module_name: API_MODULE.into(), own_state: false, foreign_memory: false, bad_sig: None, extra_import: None, dup: None, nonfunc: None, extra_nonfunc: None },
         ),
         (
             "two-import subset (log, output string)".into(),
@@ -442,6 +448,7 @@ fn family(api: &[ApiFn]) -> Vec<(String, GuestSpec)> {
                 extra_import: None,
                 dup: None,
                 nonfunc: None,
+                extra_nonfunc: None,
             },
         ),
     ]
@@ -849,7 +856,7 @@ fn cmd_c04(seed: u64, n: u64, ops_path: &str, impl_path: &str) -> Result<()> {
         idx.truncate(keep);
         // every third generated module imports one of its API functions a second time (valid Wasm)
         let dup = if rng.below(3) == 0 { Some(idx[rng.below(idx.len() as u64) as usize]) } else { None };
-        let g = GuestSpec { apis: idx.clone(), foreign_first: rng.below(2) == 0, foreign_between: rng.below(2) == 0, own_stuff: rng.below(2) == 0, memories: 1, module_name: API_MODULE.into(), own_state: true, foreign_memory: rng.below(3) == 0, bad_sig: None, extra_import: None, dup: dup.map(|k| (k, api[k].sig.clone())), nonfunc: None };
+        let g = GuestSpec { apis: idx.clone(), foreign_first: rng.below(2) == 0, foreign_between: rng.below(2) == 0, own_stuff: rng.below(2) == 0, memories: 1, module_name: API_MODULE.into(), own_state: true, foreign_memory: rng.below(3) == 0, bad_sig: None, extra_import: None, dup: dup.map(|k| (k, api[k].sig.clone())), nonfunc: None, extra_nonfunc: None };
         let wasm = wat::parse_str(&build_guest(&api, &g))?;
         modules.push((trampoline(&wasm)?, idx, false, dup));
     }
@@ -908,7 +915,7 @@ fn cmd_f8() -> Result<()> {
     let api = load_api()?;
     let eng = engine()?;
     let k = api.iter().position(|a| a.name == "shopify_function_output_new_utf8_str").ok_or_else(|| anyhow!("no output_new_utf8_str"))?;
-    let g = GuestSpec { apis: vec![k], foreign_first: false, foreign_between: false, own_stuff: false, memories: 1, module_name: API_MODULE.into(), own_state: false, foreign_memory: false, bad_sig: None, extra_import: None, dup: None, nonfunc: None };
+    let g = GuestSpec { apis: vec![k], foreign_first: false, foreign_between: false, own_stuff: false, memories: 1, module_name: API_MODULE.into(), own_state: false, foreign_memory: false, bad_sig: None, extra_import: None, dup: None, nonfunc: None, extra_nonfunc: None };
     let wasm = trampoline(&wat::parse_str(&build_guest(&api, &g))?)?;
     let mut script = Script::default();
     script.resp.insert("_shopify_function_output_new_utf8_str".into(), 4u64 << 32);
@@ -1020,8 +1027,8 @@ fn cmd_c07(seed: u64, n: u64, ops_path: &str, impl_path: &str) -> Result<()> {
         }
         let keep = rng.range(0, api.len() as u64) as usize;
         idx.truncate(keep);
-        let mut g = GuestSpec { apis: idx.clone(), foreign_first: rng.below(2) == 0, foreign_between: rng.below(2) == 0, own_stuff: true, memories: 1, module_name: API_MODULE.into(), own_state: true, foreign_memory: false, bad_sig: None, extra_import: None, dup: None, nonfunc: None };
-        let variant = i % 12;
+        let mut g = GuestSpec { apis: idx.clone(), foreign_first: rng.below(2) == 0, foreign_between: rng.below(2) == 0, own_stuff: true, memories: 1, module_name: API_MODULE.into(), own_state: true, foreign_memory: false, bad_sig: None, extra_import: None, dup: None, nonfunc: None, extra_nonfunc: None };
+        let variant = i % 13;
         let vname = match variant {
             0 | 1 => "valid",
             2 => {
@@ -1090,9 +1097,14 @@ fn cmd_c07(seed: u64, n: u64, ops_path: &str, impl_path: &str) -> Result<()> {
                 g.dup = Some((k, s));
                 "duplicate-bad-signature"
             }
-            _ => {
+            11 => {
                 g.nonfunc = Some(rng.below(api.len() as u64) as usize);
                 "non-function-api-name"
+            }
+            _ => {
+                // an unknown name in the API namespace that is not a function
+                g.extra_nonfunc = Some((format!("shopify_function_unknown_{}", rng.below(9)), rng.below(3) as usize));
+                "unknown-non-function"
             }
         };
         *hist.entry(format!("variant:{}", vname)).or_insert(0) += 1;
